@@ -29,7 +29,17 @@ impl<'a> Checker<'a> {
             ExprKind::Ident(n) => self.ident(n, pos, want_place),
             ExprKind::IntLit(s) => match consts::parse_int_lit(s) {
                 Ok(i) => Ok(Operand::constant(T_UINT_C, CV::Int(i), pos)),
-                Err(consts::LitErr::TooBig) => self.unsup(pos, "big-int-literal"),
+                Err(consts::LitErr::TooBig) => {
+                    // A decimal integer literal beyond i128 (e.g. a large float printed without
+                    // exponent): keep it as an untyped *integer* constant with a float payload.
+                    // Only conversions to float types can succeed on it; everything that needs
+                    // the exact integer value is refused as Unsupported.
+                    let decimal = s.bytes().all(|b| b.is_ascii_digit()) && !s.starts_with('0');
+                    match (decimal, consts::parse_float_lit(s)) {
+                        (true, Some(f)) => Ok(Operand::constant(T_UINT_C, CV::Float(f), pos)),
+                        _ => self.unsup(pos, "big-int-literal"),
+                    }
+                }
                 Err(consts::LitErr::Invalid) => Ok(self.err_at(pos, "syntax", "invalid integer literal")),
             },
             ExprKind::FloatLit(s) => match consts::parse_float_lit(s) {
@@ -497,11 +507,11 @@ impl<'a> Checker<'a> {
         if x.mode == Mode::Invalid || y.mode == Mode::Invalid {
             return Ok(Operand::invalid(pos));
         }
-        let Some((mut x, mut y)) = self.match_types(x, y, op, pos)? else { return Ok(Operand::invalid(pos)) };
-        let eq_op = matches!(op, BinOp::Eq | BinOp::Ne);
         // nil handling
         let xnil = x.ty == T_UNIL;
         let ynil = y.ty == T_UNIL;
+        let Some((mut x, mut y)) = self.match_types(x, y, op, pos)? else { return Ok(Operand::invalid(pos)) };
+        let eq_op = matches!(op, BinOp::Eq | BinOp::Ne);
         if xnil && ynil {
             return Ok(self.err_at(pos, "op-mismatch", &format!("invalid operation: operator {} not defined on nil", op.text())));
         }
